@@ -263,10 +263,13 @@ def r5_cli(ctx):
     file_ok, dir_ok, per_file_ok = [], [], []
     for sp in symex.func_sym_paths(hk):
         tests = {src(n): t for n, t in sp.conds}
-        is_file = tests.get(f'{IN}.is_file()')
+        pc = sp.condition()
+        is_file = True if F.forced(pc, f'{IN}.is_file()', True) else (False if F.forced(pc, f'{IN}.is_file()', False) else None)
         if is_file is None:
-            is_dir = tests.get(f'{IN}.is_dir()')
-            is_file = (not is_dir) if is_dir is not None else None
+            is_file = False if F.forced(pc, f'{IN}.is_dir()', True) else (True if F.forced(pc, f'{IN}.is_dir()', False) else None)
+        for a_, v_ in (('args.output_path', True), ('args.output_path', False)):
+            if a_ not in tests and F.forced(pc, a_, v_):
+                tests[a_] = v_
         convs = [e.expr for e in sp.events if e.kind == 'expr' and isinstance(e.expr, ast.Call) and F.is_name(e.expr.func, 'kern_to_ekern')]
         its = [e.expr for e in sp.events if e.kind in ('iter', 'skip')]
         if is_file is True:
@@ -333,6 +336,26 @@ def r5_cli(ctx):
     d, pats, rec = ff.params[:3]
     okr = True
     n = 0
+    if not [x for x in walk_local(ff.node) if isinstance(x, ast.For)]:
+        # the same list as one expression: the concatenation, pattern by pattern, of what rglob / glob yield
+        from .. import seqs
+        for cond, val, sp in symex.returns(ff):
+            v = val.args[0] if isinstance(val, ast.Call) and F.is_name(val.func, 'list') and len(val.args) == 1 else val
+            if not (isinstance(v, (ast.GeneratorExp, ast.ListComp)) and len(v.generators) == 2 and not v.generators[0].ifs and not v.generators[1].ifs
+                    and isinstance(v.generators[0].target, ast.Name) and isinstance(v.generators[1].target, ast.Name)
+                    and F.is_name(v.elt, v.generators[1].target.id) and src(v.generators[0].iter) == pats):
+                raise AnalysisError(f'{ff.loc}: find_files returns `{src(val)[:100]}`: neither a loop over the patterns nor their flat map')
+            pv, each = v.generators[0].target.id, v.generators[1].iter
+            ats = set(G.atoms_of(cond)) | {a for t in ast.walk(each) if isinstance(t, ast.IfExp) for a in G.atoms_of(G._formula(t.test))}
+            if not ats <= {rec}:
+                okr = False
+                continue
+            for rv in (True, False):
+                if not G.evaluate(cond, {a: rv for a in G.atoms_of(cond)}):
+                    continue
+                n += 1
+                leaf = seqs.select(each, {rec: rv})
+                okr = okr and src(leaf) == (f'{d}.rglob({pv})' if rv else f'{d}.glob({pv})')
     for lp in [x for x in walk_local(ff.node) if isinstance(x, ast.For)]:
         for sp in symex.sym_paths(lp.body):
             calls = [src(e.expr) for e in sp.events if e.kind == 'expr' and isinstance(e.expr, ast.Call)]
@@ -408,7 +431,17 @@ def check_get_kern_from_ekern(ctx, rule):
     reps = []
     if len(rets) == 1:
         node = rets[0][1]
-        while isinstance(node, ast.Call) and isinstance(node.func, ast.Attribute) and node.func.attr == 'replace' and len(node.args) == 2:
+        while isinstance(node, ast.Call) and isinstance(node.func, ast.Attribute) and (
+                (node.func.attr == 'replace' and len(node.args) == 2) or (node.func.attr == 'translate' and len(node.args) == 1)) and not node.keywords:
+            if node.func.attr == 'translate':
+                # a translation table that only deletes characters is the chain of their deletions (in any order)
+                okt, table = ctx.ce.try_eval(node.args[0], g.module)
+                if not (okt and isinstance(table, dict) and all(isinstance(k_, int) for k_ in table)):
+                    raise AnalysisError(f'{g.loc}: the translation table `{src(node.args[0])[:60]}` is not a constant')
+                for k_, v_ in table.items():
+                    reps.append((chr(k_), '' if v_ is None else (chr(v_) if isinstance(v_, int) else v_)))
+                node = node.func.value
+                continue
             ok1, a = ctx.ce.try_eval(node.args[0], g.module)
             ok2, b = ctx.ce.try_eval(node.args[1], g.module)
             reps.append((a if ok1 else src(node.args[0]), b if ok2 else src(node.args[1])))
